@@ -154,7 +154,8 @@ Definition once_ids_of (opts : list arg) : list Z :=
                      | _ => [] end) opts.
 Definition op_once_ids (o : op) : list Z :=
   match o with
-  | OpCall _ d opts | OpRedefine _ d opts => once_ids_of (d ++ opts)
+  | OpCall f d opts => (if fn_once f then [fn_id f] else []) ++ once_ids_of (d ++ opts)
+  | OpRedefine _ d opts => once_ids_of (d ++ opts)
   | OpConvert _ opts => once_ids_of opts
   | _ => []
   end.
@@ -183,7 +184,7 @@ Definition c17_monitor (earlier : list event) (o : op) (ob : op_obs) : Z :=
       match last_exec_outs (fn_id f) (earlier ++ oo_events ob) with
       | Some vs => let (l, os) := raw_of_event f vs in
                    if (l =? len) && Base.eqb os outs then 0 else 70
-      | None => 0
+      | None => 72     (* a successful call whose target never ran (now or, memoized, earlier) *)
       end
   (* when resolution itself fails the result has length 0 (and an error) *)
   | OpCall _ _ _, ObsCall (ObsUnsat _ _ _ _ _) len _
